@@ -24,7 +24,7 @@ import (
 
 // ---- tree encoding ----
 
-func encTree(re *syntax.Regexp) string {
+func encRegexTree(re *syntax.Regexp) string {
 	var b strings.Builder
 	writeTree(&b, re)
 	return b.String()
@@ -62,7 +62,7 @@ func treeArg(src string) string {
 	if _, err := regexp.Compile(src); err != nil {
 		return "err"
 	}
-	return encTree(re)
+	return encRegexTree(re)
 }
 
 func walkTree(re *syntax.Regexp, fn func(*syntax.Regexp)) {
@@ -740,7 +740,7 @@ func genRegexSem(r *rand.Rand, n int, emit func(args ...string)) {
 		if len(alpha) <= 4 {
 			bound = 4
 		}
-		emit(encStr(src), encTree(tree), encRunes(alpha), encInt(int64(bound)))
+		emit(encStr(src), encRegexTree(tree), encRunes(alpha), encInt(int64(bound)))
 	}
 	for _, src := range rxCorners {
 		e(src, false)
